@@ -31,6 +31,22 @@ theorem C10_tokens_in_order (sh : Shapes) (hs : Supported sh) (t : PTree) (hw : 
     (v : Val) (h : eval sh t = .ok (some v)) : v.tokens = t.contentTokens sh :=
   eval_tokens sh hs t hw v h
 
+/-- **The generated builder is `eval`.** `run` is the DefaultBuilder as the stack machine it is
+(`shift_action` pushes, every `reduce_action` arm splits its entries off the result stack), fed with
+the calls the LR parser / `Tree::build` make for the tree (post-order, `prod_len` = number of children):
+whatever the stack was, it ends with the outcome of `eval` on top — the same value or the same error. -/
+theorem C10_stack_machine_is_eval (sh : Shapes) (t : PTree) (s : List (Option Val)) :
+    run sh t.events s = pushRes s (eval sh t) :=
+  run_events sh t s
+
+/-- Hence for the value `get_result` returns: tokens in input order. -/
+theorem C10_builder_returns_tokens (sh : Shapes) (hs : Supported sh) (t : PTree) (hw : t.wellShaped sh = true)
+    (v : Val) (h : runTree sh t = .ok v) : v.tokens = t.contentTokens sh :=
+  eval_tokens sh hs t hw v (eval_of_runTree sh t v h)
+
+example : (runTree (shapesOf gVecL (typesOf gVecL) false) tVecL).toOption.map Val.tokens = some ["1", "2", "3"] := by
+  decide
+
 /-- non-vacuity: the left-recursive `@vec` grammar `S: KA L; @vec L: L Num | Num;` on `KA 1 2 3`
 (`S` has one content symbol: its type is an alias of `L`) -/
 example : Supported (shapesOf gVecL (typesOf gVecL) false) ∧ tVecL.wellShaped (shapesOf gVecL (typesOf gVecL) false) = true ∧
